@@ -8,10 +8,13 @@ EXTENDS Variation, TLC, Json
 
 CONSTANTS MaxPerm,    \* all permutations of 0..n-1 for n <= MaxPerm, all index tuples / ranges / insertion points
           ExtraLens,  \* further lengths for which identity and reversal are enumerated
-          MaxPar,     \* parents over {0,1} x {2,3} up to this length, all cut tuples and masks
-          LabLens,    \* lengths of the position-labelled parent pair (10+j / 20+j), all cut tuples
+          MaxPar,     \* parents over {0,1} x {2,3} up to this length, all cut tuples and masks; the second parent
+                      \*   has the length of the first or ANY OTHER length in 1..MaxPar + 1
+          LabLens,    \* lengths of the position-labelled parent pair (10+j / 20+j), all cut tuples; the second
+                      \*   parent has the length n of the first or a length in n-2..n+1
           MaxCyc,     \* all pairs of permutations up to this length (cycle crossover)
-          MaxArith,   \* arithmetic crossover: parents over ArithVals up to this length, alphas in {0..4}/4
+          MaxArith,   \* arithmetic crossover: parents over ArithVals up to this length (of equal or unequal
+                      \*   length), alphas in {0..4}/4
           ArithVals,
           MaxArithX,  \* arithmetic crossover on extreme genes: parents over the ranks ArithXVals up to this length,
           ArithXVals, \*   every alpha index 0..AlphaTop
@@ -39,6 +42,17 @@ Prod(sets) == IF sets = <<>> THEN {<<>>}
 PermsOf(s) == {[j \in 1..Len(s) |-> s[ix[j] + 1]] : ix \in Perms(Len(s))}
 Lab(j, d)  == [c \in 1..d |-> 10 * j + c]                 \* position-labelled individual
 LabPop(n, d, off) == [j \in 1..n |-> Lab(j + off, d)]
+(* populations with DUPLICATES: individual j is a copy of individual       *)
+(* pat[j] <= j (pat[j] = j: a new one); every pattern = every partition of *)
+(* the positions: distinct individuals, identical adjacent parents,        *)
+(* copies across pairs, converged populations                              *)
+Pats(n) == {pat \in [1..n -> 1..n] : \A j \in 1..n : pat[j] <= j /\ pat[pat[j]] = pat[j]}
+DupPops(n, d) == {[j \in 1..n |-> Lab(pat[j], d)] : pat \in Pats(n)}
+(* ... and RAGGED ones: every individual has length d or d + 1, not all    *)
+(* the same (both orders of a long and a short parent, with duplicates)    *)
+RagPops(n, d) == {pop \in {[j \in 1..n |-> Lab(pat[j], ln[pat[j]])] : pat \in Pats(n), ln \in [1..n -> {d, d + 1}]} :
+                    Ragged(pop)}
+HasDup(pin) == \E m \in 1..(Len(pin) \div 2) : pin[2 * m - 1] = pin[2 * m]
 PermPops(d) == {<<>>} \cup {<<p>> : p \in Perms(d)} \cup {<<IdP(d), p>> : p \in Perms(d)}
 BitPops(d)  == {<<>>} \cup {<<p>> : p \in [1..d -> {0, 1}]}  \cup {<<[c \in 1..d |-> c % 2], p>> : p \in [1..d -> {0, 1}]}
 Zeros(n, d) == [j \in 1..n |-> [c \in 1..d |-> 0]]
@@ -47,6 +61,62 @@ IdsMC == {"Global", "A"}    \* identifiers of the component model (the third, B,
 
 OkR(a, out) == CR("ok", out, a.base, Height(a), <<>>, <<>>)
 ErrR(k) == CR(k, <<>>, <<>>, 1, <<>>, <<>>)
+
+(* ArithmeticCrossover in the component model.  The real vectors are       *)
+(* abstract: an individual is its tag (TagPops: every pattern of           *)
+(* duplicates), and the float predicates the harness would log are derived *)
+(* from the PROVENANCE of every output:                                    *)
+(*   t  its tag (0 = a new vector; a child of two identical parents may    *)
+(*      also be bit-identical to them),                                    *)
+(*   m, k  the pair it stems from and its place in it (m = 0: the odd      *)
+(*      remainder), ch = 1 a child / 0 a kept parent,                      *)
+(*   in = 1  a child that lies between the parents of its pair,            *)
+(*   cs = 1  (first of a pair) it and the next output sum to the parents.  *)
+(* Ideal behaviour: in = cs = 1.  A vector lies between the parents of     *)
+(* pair m2 / two outputs sum to the parents of pair m2 if that follows     *)
+(* from the provenance (generic position otherwise).                       *)
+PV(t, m, k, ch, in, cs) == [t |-> t, m |-> m, k |-> k, ch |-> ch, in |-> in, cs |-> cs]
+TagRow(t, d) == [c \in 1..d |-> t]
+TagPops(n, d) == {[j \in 1..n |-> TagRow(pat[j], d)] : pat \in Pats(n)}
+PairTags(a, m) == {a.pin[2 * m - 1][1], a.pin[2 * m][1]}
+Identical(a, m) == a.pin[2 * m - 1] = a.pin[2 * m]
+KeptPV(a, m) == <<PV(a.pin[2 * m - 1][1], m, 1, 0, 1, 1), PV(a.pin[2 * m][1], m, 2, 0, 1, 1)>>
+KidsPV(a, m, x, y, in, cs) == IF a.both = 1 THEN <<PV(x, m, 1, 1, in, cs), PV(y, m, 2, 1, 1, 1)>> ELSE <<PV(x, m, 1, 1, in, cs)>>
+KidTags(a, m) == {0} \cup (IF Identical(a, m) THEN {a.pin[2 * m][1]} ELSE {})
+ArithPairOut(a, m) ==
+    (IF a.pr # 2 THEN {KeptPV(a, m)} ELSE {})
+    \cup (IF a.pr # 0 THEN {KidsPV(a, m, x, y, 1, 1) : x, y \in KidTags(a, m)} ELSE {})
+RECURSIVE FlatSeq(_)
+FlatSeq(ss) == IF ss = <<>> THEN <<>> ELSE ss[1] \o FlatSeq(Tail(ss))
+RestPV(a) == LET n == Len(a.pin) IN IF n % 2 = 1 THEN <<PV(a.pin[n][1], 0, 1, 0, 1, 0)>> ELSE <<>>
+ArithProvs(a) == {FlatSeq(ch) \o RestPV(a) : ch \in Prod([m \in 1..(Len(a.pin) \div 2) |-> ArithPairOut(a, m)])}
+ArithReply(a, pv) ==
+    LET np == Len(a.pin) \div 2
+        between(x, m2) == IF x.t # 0 THEN (IF x.t \in PairTags(a, m2) THEN 1 ELSE 0)
+                          ELSE IF x.in = 1 /\ PairTags(a, x.m) = PairTags(a, m2) THEN 1 ELSE 0
+        cons(o, m2) == IF /\ o + 1 <= Len(pv) /\ pv[o].m # 0 /\ pv[o].m = pv[o + 1].m /\ pv[o].k = 1 /\ pv[o + 1].k = 2
+                          /\ pv[o].cs = 1 /\ PairTags(a, pv[o].m) = PairTags(a, m2)
+                       THEN 1 ELSE 0
+    IN [CR("ok", [o \in 1..Len(pv) |-> TagRow(pv[o].t, a.dim)], a.base, Height(a), <<>>, <<>>)
+          EXCEPT !.pred  = [o \in 1..Len(pv) |-> [m2 \in 1..np |-> between(pv[o], m2)]],
+                 !.pred2 = [o \in 1..Len(pv) |-> [m2 \in 1..np |-> cons(o, m2)]]]
+(* behaviours that break C13, as provenances (every other pair behaves     *)
+(* ideally: kept if pc # 1, crossed if pc = 1)                             *)
+ArithBad(a) ==
+    LET np == Len(a.pin) \div 2
+        Def(m) == IF a.pr # 2 THEN KeptPV(a, m) ELSE KidsPV(a, m, 0, 0, 1, 1)
+        First(x) == FlatSeq([m \in 1..np |-> IF m = 1 THEN x ELSE Def(m)]) \o RestPV(a)
+    IN \* identical parents are kept although pc = 1 and one child per pair is due; every pair is kept
+       (IF a.pr = 2 /\ a.both = 0 /\ \E m \in 1..np : Identical(a, m)
+        THEN {FlatSeq([m \in 1..np |-> IF Identical(a, m) THEN KeptPV(a, m) ELSE Def(m)]) \o RestPV(a)} ELSE {})
+       \cup (IF a.pr = 2 /\ a.both = 0 /\ np >= 1 THEN {FlatSeq([m \in 1..np |-> KeptPV(a, m)]) \o RestPV(a)} ELSE {})
+       \* a pair is crossed although pc = 0
+       \cup (IF a.pr = 0 /\ np >= 1 THEN {First(KidsPV(a, 1, 0, 0, 1, 1))} ELSE {})
+       \* one new vector too many
+       \cup {pv \o <<PV(0, 0, 1, 1, 0, 0)>> : pv \in ArithProvs(a)}
+       \* a child outside the hull of its parents; two children that do not sum to their parents
+       \cup (IF a.pr # 0 /\ np >= 1 THEN {First(KidsPV(a, 1, 0, 0, 0, 1))} ELSE {})
+       \cup (IF a.pr # 0 /\ np >= 1 /\ a.both = 1 THEN {First(KidsPV(a, 1, 0, 0, 1, 0))} ELSE {})
 
 (* replies of an instance that obeys the parameters in `a` (reg, mag: below) *)
 GenE(a) ==
@@ -87,7 +157,8 @@ GenE(a) ==
                        : x \in {x \in InjSeqs(d + 1, 2) : x[1] < x[2]}}])}
       [] a.c \in GeneX ->
             LET Kids(p1, p2) ==
-                    CASE a.c = "NPointCrossover"  -> {MultiPoint(p1, p2, ix) : ix \in InjSeqs(d, a.np)}
+                    CASE a.c = "NPointCrossover"  ->
+                            {MultiPointAny(p1, p2, ix) : ix \in InjSeqs(Lo(Len(p1), Len(p2)), a.np)}
                       [] a.c = "UniformCrossover" -> {Uniform(p1, p2, m) : m \in [1..d -> {0, 1}]}
                       [] OTHER -> {CycleX(p1, p2)}
                 PairOut(p1, p2) ==
@@ -97,6 +168,7 @@ GenE(a) ==
                 pairs == [m \in 1..(n \div 2) |-> PairOut(a.pin[2 * m - 1], a.pin[2 * m])]
                 tail == IF n % 2 = 1 THEN <<a.pin[n]>> ELSE <<>>
             IN {OkR(a, Flat(ch) \o tail) : ch \in Prod(pairs)}
+      [] a.c = "ArithmeticCrossover" -> {ArithReply(a, pv) : pv \in ArithProvs(a)}
       [] a.c \in DEX ->
             LET Sets == IF a.pr = 2 THEN {1..d}
                         ELSE IF a.c = "DEBinomialCrossover"
@@ -109,17 +181,18 @@ GenE(a) ==
 (* ... with the observations: the parameter states read back, and for      *)
 (* UniformMutation the magnitude classes (every moved coordinate in the    *)
 (* same class m, for every class the effective bound allows)               *)
+Dress(a, r) ==
+    LET reg == IF a.c \in IdComps /\ r.k \in {"ok", "err"}
+               THEN [k \in 1..Len(IdSeq) |-> RegOf(a)[IdSeq[k]]] ELSE <<>>
+        blt == IF r.k \in {"ok", "err"} THEN <<Built(a).pr, Built(a).p2, Built(a).both, a.st, a.np>> ELSE <<>>
+    IN [r EXCEPT !.reg = reg, !.built = blt]
 Gen(a) ==
     LET e == Eff(a)
-        reg(r) == IF a.c \in IdComps /\ r.k \in {"ok", "err"}
-                  THEN [k \in 1..Len(IdSeq) |-> RegOf(a)[IdSeq[k]]] ELSE <<>>
-        blt(r) == IF r.k \in {"ok", "err"} THEN <<Built(a).pr, Built(a).p2, Built(a).both, a.st, a.np>> ELSE <<>>
     IN UNION {
         IF a.c = "UniformMutation" /\ r.k = "ok"
-        THEN {[r EXCEPT !.reg = reg(r), !.built = blt(r),
-                        !.mag = [j \in 1..Len(r.out) |-> [c \in 1..Len(r.out[j]) |-> r.out[j][c] * m]]]
+        THEN {[Dress(a, r) EXCEPT !.mag = [j \in 1..Len(r.out) |-> [c \in 1..Len(r.out[j]) |-> r.out[j][c] * m]]]
               : m \in 1..e.st}
-        ELSE {[r EXCEPT !.reg = reg(r), !.built = blt(r)]}
+        ELSE {Dress(a, r)}
         : r \in GenE(e)}
 
 Nrel(np, d) == IF 1 <= np /\ np < d THEN 0 ELSE 1
@@ -132,13 +205,23 @@ BaseCases(d) ==
         \cup {CA("SwapMutation", np, 0, 0, 0, d, Nrel(np, d), pin, <<>>) : np \in 0..d + 1, pin \in PermPops(d)}
         \cup {CA(c, 0, 0, 0, 0, d, 1, pin, <<>>) :
                 c \in {"InversionMutation", "InsertionMutation", "TranslocationMutation"}, pin \in PermPops(d)}
-        \cup {CA("NPointCrossover", np, pr, 0, both, d, 0, LabPop(n, d, 0), <<>>) :
-                np \in 1..d - 1, pr \in 0..2, both \in {0, 1}, n \in 0..CompN}
-        \cup {CA("UniformCrossover", 0, pr, 0, both, d, 1, LabPop(n, d, 0), <<>>) :
-                pr \in 0..2, both \in {0, 1}, n \in 0..CompN}
+        \cup UNION {{CA("NPointCrossover", np, pr, 0, both, d, 0, pin, <<>>) :
+                        np \in 1..d - 1, pr \in 0..2, both \in {0, 1}, pin \in DupPops(n, d) \cup RagPops(n, d)}
+                    : n \in 0..CompN}
+        \cup UNION {{CA("UniformCrossover", 0, pr, 0, both, d, 1, pin, <<>>) :
+                        pr \in 0..2, both \in {0, 1}, pin \in DupPops(n, d)}
+                    : n \in 0..CompN}
         \cup {CA("CycleCrossover", 0, pr, 0, both, d, 1, pin, <<>>) :
-                pr \in 0..2, both \in {0, 1}, pin \in PermPops(d) \cup {<<IdP(d), RevP(d), RevP(d)>>}}
-        \cup {CA(c, 0, pr, 0, 0, d, 1, LabPop(n, d, 0), LabPop(n, d, 4)) : c \in DEX, pr \in 0..2, n \in 0..2}
+                pr \in 0..2, both \in {0, 1},
+                pin \in PermPops(d) \cup {<<IdP(d), RevP(d), RevP(d)>>, <<RevP(d), RevP(d), IdP(d)>>}}
+        \cup UNION {{CA("ArithmeticCrossover", 0, pr, 0, both, d, 1, pin, <<>>) :
+                        pr \in 0..2, both \in {0, 1}, pin \in TagPops(n, d)}
+                    : n \in 0..CompN}
+        \* DE crossovers: distinct mutants over distinct bases; duplicates among the mutants; mutants identical to
+        \* their bases (a mutation without effect, a converged population)
+        \cup UNION {UNION {{CA(c, 0, pr, 0, 0, d, 1, pin, base) : c \in DEX, pr \in 0..2, base \in {LabPop(n, d, 4), pin}}
+                           : pin \in DupPops(n, d)}
+                    : n \in 0..2}
 (* a base case built through constructor ct instead of `new`: the          *)
 (* arguments ct does not take are dropped                                  *)
 Via(a, ct) == [a EXCEPT !.ctor = ct,
@@ -178,7 +261,7 @@ CycP     == UNION {Perms(n) : n \in 1..MaxCyc}
 CompIx == <<"NormalMutation", "UniformMutation", "PartialRandomSpread", "BitFlipMutation",
             "PartialRandomBitstring", "ScrambleMutation", "SwapMutation", "InversionMutation",
             "InsertionMutation", "TranslocationMutation", "NPointCrossover", "UniformCrossover",
-            "CycleCrossover", "DEBinomialCrossover", "DEExponentialCrossover">>
+            "CycleCrossover", "DEBinomialCrossover", "DEExponentialCrossover", "ArithmeticCrossover">>
 ASSUME {a.c : a \in CompCases} = Range(CompIx)
 (* the constructor table, for the completeness check against the harness and the source *)
 ASSUME PrintT(<<"CTORS", ToJson([c \in Comps |-> Ctors(c)])>>)
@@ -187,15 +270,25 @@ Groups == {<<1>> \o p : p \in PermInputs} \cup {<<2>> \o p : p \in PermInputs}
           \cup {<<5>> \o p : p \in ArithP} \cup {<<6>> \o p : p \in CycP}
           \cup {<<7, k>> : k \in DOMAIN CompIx} \cup {<<8>> \o p : p \in ArithXP}
 Mates(p) == IF p[1] >= 10 THEN {[j \in 1..Len(p) |-> 20 + j]} ELSE [1..Len(p) -> {2, 3}]
+(* second parents of another length than the first                         *)
+UMates(p) == LET n == Len(p) IN
+             IF p[1] >= 10 THEN {[j \in 1..m |-> 20 + j] : m \in ((n - 2)..(n + 1)) \ {n}}
+             ELSE UNION {[1..m -> {2, 3}] : m \in (1..MaxPar + 1) \ {n}}
+(* masks that swap only positions both parents have                        *)
+UMasks(n, m) == {[k \in 1..Hi(n, m) |-> IF k <= Lo(n, m) THEN mk[k] ELSE 0] : mk \in [1..Lo(n, m) -> {0, 1}]}
 
 NextFn ==
     LET p == Tail(grp) n == Len(grp) - 1 IN
     CASE grp[1] = 1 -> \E ix \in Tuples(n) : \E op \in SwapOps : DoFn(A(op, p, <<>>, ix, 0, 0, 0))
       [] grp[1] = 2 -> \E a \in 0..n - 1 : \E b \in a..n : \E i \in 0..Lo(n - 1, n - (b - a)) : \E op \in TransOps :
                           DoFn(A(op, p, <<>>, <<>>, a, b, i))
-      [] grp[1] = 3 -> \E q \in Mates(p) : \E ix \in Cuts(n) : DoFn(A("multi_point", p, q, ix, 0, 0, 0))
-      [] grp[1] = 4 -> \E q \in Mates(p) : \E m \in [1..n -> {0, 1}] : DoFn(A("uniform", p, q, m, 0, 0, 0))
-      [] grp[1] = 5 -> \E q \in [1..n -> ArithVals] : \E al \in [1..n -> 0..4] : DoFn(A("arithmetic", p, q, al, 0, 0, 0))
+      [] grp[1] = 3 -> \/ \E q \in Mates(p) : \E ix \in Cuts(n) : DoFn(A("multi_point", p, q, ix, 0, 0, 0))
+                       \/ \E q \in UMates(p) : \E ix \in Cuts(Lo(n, Len(q))) : DoFn(A("multi_point", p, q, ix, 0, 0, 0))
+      [] grp[1] = 4 -> \/ \E q \in Mates(p) : \E m \in [1..n -> {0, 1}] : DoFn(A("uniform", p, q, m, 0, 0, 0))
+                       \/ \E q \in UMates(p) : \E m \in UMasks(n, Len(q)) : DoFn(A("uniform", p, q, m, 0, 0, 0))
+      [] grp[1] = 5 -> \/ \E q \in [1..n -> ArithVals] : \E al \in [1..n -> 0..4] : DoFn(A("arithmetic", p, q, al, 0, 0, 0))
+                       \/ \E m \in (1..MaxArith) \ {n} : \E q \in [1..m -> ArithVals] : \E al \in [1..Hi(n, m) -> 0..4] :
+                              DoFn(A("arithmetic", p, q, al, 0, 0, 0))
       [] grp[1] = 6 -> \E q \in Perms(n) : DoFn(A("cycle", p, q, <<>>, 0, 0, 0))
       [] grp[1] = 8 -> \E q \in [1..n -> ArithXVals] : \E al \in [1..n -> 0..AlphaTop] : DoFn(A("arith_x", p, q, al, 0, 0, 0))
       [] OTHER -> FALSE
@@ -220,10 +313,43 @@ Corrupt(r) ==
     \cup (IF r.built # <<>> THEN {[r EXCEPT !.built[k] = IF r.built[k] = 0 THEN 1 ELSE 0] : k \in 1..5} ELSE {})
     \cup (IF r.mag # <<>> /\ Len(r.mag) > 0 /\ r.k = "ok"
           THEN {[r EXCEPT !.mag[1][1] = Eff(cact).st + 1]} ELSE {})              \* moved further than the bound
-RelRejects == cact.c # "-" => \A r2 \in Corrupt(cres) : ~CompRel(cact, r2)
+    \* offspring counts that do not follow pc / insert_both (whatever the parents look like): with pc = 1 and
+    \* insert-single both parents of every pair are kept; with pc in {0, 1} an individual is missing
+    \cup (IF r.k = "ok" /\ cact.c \in GeneX /\ Eff(cact).pr = 2 /\ Eff(cact).both = 0 /\ Len(cact.pin) >= 2
+          THEN {[r EXCEPT !.out = cact.pin]} ELSE {})
+    \cup (IF r.k = "ok" /\ cact.c \in GeneX /\ Eff(cact).pr # 1 /\ Len(r.out) >= 1
+          THEN {[r EXCEPT !.out = Tail(r.out)]} ELSE {})
+    \* ragged pair, both children inserted: the second child replaced by a copy of the first (one parental length
+    \* and the genes of one tail lost), a child that lost its last gene
+    \cup (IF r.k = "ok" /\ cact.c = "NPointCrossover" /\ Eff(cact).both = 1 /\ Len(r.out) >= 2
+             /\ Len(r.out[1]) # Len(r.out[2])
+          THEN {[r EXCEPT !.out[2] = r.out[1]],
+                [r EXCEPT !.out[1] = SubSeq(r.out[1], 1, Len(r.out[1]) - 1)]} ELSE {})
+RelRejects == (cact.c # "-" /\ cact.c # "ArithmeticCrossover") => \A r2 \in Corrupt(cres) : ~CompRel(cact, r2)
+(* (ArithmeticCrossover: the predicates must stay consistent with the      *)
+(* outputs, so the replies are corrupted at the level of the provenance)   *)
+ArithRejects ==
+    cact.c = "ArithmeticCrossover" =>
+        /\ ~CompRel(cact, [cres EXCEPT !.k = "panic"]) /\ ~CompRel(cact, [cres EXCEPT !.h = cres.h + 1])
+        /\ \A pv \in ArithBad(Eff(cact)) : ~CompRel(cact, Dress(cact, ArithReply(Eff(cact), pv)))
 
 ArithValsDefault == {-1, 0, 3}
 ArithValsWide == {-2, -1, 0, 3, 5}
+
+(* multi-point crossover of parents of unequal length: the relation        *)
+(* accepts the reference, the reference is what the transcribed algorithm  *)
+(* computes, and replies in which a child lost / duplicated a tail, a gene *)
+(* or a length are rejected                                                *)
+MultiPointUAccepts == UnequalMP(act) => MultiPointURel(act, res)
+MultiPointUTwin == UnequalMP(act) => MultiPointUAlg(act.p, act.q, act.p, act.q, act.ix) = <<res.c1, res.c2>>
+MPCorrupt(r) == LET mn == Lo(Len(act.p), Len(act.q)) IN
+    {[r EXCEPT !.c2 = r.c1], [r EXCEPT !.c1 = r.c2], [r EXCEPT !.k = "panic"],
+     [r EXCEPT !.c1 = SubSeq(r.c1, 1, Len(r.c1) - 1)], [r EXCEPT !.c2 = Append(r.c2, 77)],
+     [r EXCEPT !.c1[1] = 77], [r EXCEPT !.c2[Len(r.c2)] = 77],
+     \* both children end with the tail of the same parent
+     [r EXCEPT !.c1 = SubSeq(r.c1, 1, mn - 1) \o SubSeq(r.c2, mn, Len(r.c2))],
+     [r EXCEPT !.c2 = SubSeq(r.c2, 1, mn - 1) \o SubSeq(r.c1, mn, Len(r.c1))]}
+MultiPointURejects == UnequalMP(act) => \A r2 \in MPCorrupt(res) : ~MultiPointURel(act, r2)
 
 (* the relation used for extreme genes accepts the exact reference and     *)
 (* rejects replies with one gene outside / not finite / not conserved /    *)
@@ -237,5 +363,8 @@ ArithXRejects == act.op = "arith_x" => \A r2 \in XCorrupt(res) : ~ArithXRel(act,
 
 PrintCase == /\ (act'.op \in FnOps) => PrintT(<<"CASE", ToJson([act |-> act', res |-> res'])>>)
              /\ (cact'.c # "-") => PrintT(<<"CCASE", cact'.c, cres'.k, IF cres'.out = cact'.pin THEN 0 ELSE 1, cact'.ctor,
-                                            IF cact'.sibs # <<>> THEN 1 ELSE 0, IF cact'.adapt # <<>> THEN 1 ELSE 0>>)
+                                            IF cact'.sibs # <<>> THEN 1 ELSE 0, IF cact'.adapt # <<>> THEN 1 ELSE 0,
+                                            \* an identical adjacent pair / a ragged population, by insert_both and pc
+                                            IF HasDup(cact'.pin) THEN 10 * Eff(cact').both + Eff(cact').pr + 1 ELSE 0,
+                                            IF Ragged(cact'.pin) THEN 10 * Eff(cact').both + Eff(cact').pr + 1 ELSE 0>>)
 =============================================================================
